@@ -43,140 +43,72 @@ def run(ctx):
     ctx.rule("R-SIB", "sibling decoders perform the same checks")
 
     # ---- C14.b the accepted language -------------------------------------------
-    vf = find_one(ctx, f, "R-CLS", r"manifest::FileAndHash.*::validate_file_name$", "validate_file_name")
-    stem_cls = ext_cls = None
-    if vf is not None:
-        oc = outcome(vf)
-        sym = oc.sym
-        # the per-byte predicate used in the loop
-        guard_calls = []
-        for bi, blk in enumerate(vf.blocks):
-            t = blk["term"]
-            if t["t"] == "switch" and t.get("dty") == "bool":
-                at = bool_atom(sym.operand(t["discr"]))
-                if at and isinstance(at[0], tuple) and at[0][0] == "pred" and at[0][1] in f.bodies:
-                    guard_calls.append((bi, at))
-        heads = [c for c in vf.calls() if c.name == "split_first"]
-        ok_struct = len(heads) == 1
-        ctx.ob("R-CHK", "validate_file_name:scans-with-split_first", ok_struct,
-               "the name is consumed byte by byte (one split_first producer)", where=vf.loc)
-        # the cursor that is scanned (whatever it is called): the argument of split_first
-        scan = re.escape(K.arg_renders(heads[0])[0]) if ok_struct else r"\$n"
-        if ok_struct:
-            head = heads[0]
-            # which predicate guards the back edge?
-            stem_pred = None
-            for bi, at in guard_calls:
-                args = [render(a) for a in at[1]]
-                if args and re.search(r"split_first\(.*\)↓Some\.0\.0$", args[0]):
-                    stem_pred = at[0][1]
-            if stem_pred is None:
-                # no helper predicate: the tests on the scanned byte are written out in the loop.  Decide the loop body for
-                # each of the 256 byte values: does the scan continue, leave the loop towards success, or reject?
-                fate, pr = scan_byte_fates(f, vf, oc, head, r"split_first\(.*\)↓Some\.0\.0$")
-                if fate is None:
-                    ctx.ob("R-CLS", "validate_file_name:stem-predicate", False,
-                           "the per-byte tests of the scan loop are understood", where=vf.loc, detail=pr)
-                else:
-                    stem_cls = {v for v, x in fate.items() if x == "continue"}
-                    ctx.ob("R-CLS", "validate_file_name:stem-class", stem_cls == STEM and not pr,
-                           "bytes allowed before the dot are exactly [-_0-9A-Za-z]", where=vf.loc,
-                           detail={"extracted": absint.fmt_class(stem_cls), "problems": pr, "form": "tests written out in the loop"})
-                    ctx.ob("R-CHK", "validate_file_name:every-stem-byte-checked", True,
-                           "scanning continues past a byte only on the true edge of the stem predicate", where=vf.loc,
-                           detail="decided per byte value")
-                    ex = {v for v, x in fate.items() if x == "exit"}
-                    ctx.ob("R-CHK", "validate_file_name:scan-exits", ex == {0x2e},
-                           "the scan is left towards success only at end of input or at a '.' byte", where=vf.loc,
-                           detail={"bytes leaving the scan": absint.fmt_class(ex)})
-            else:
-                stem_cls, pr = absint.byte_class(f, stem_pred)
-                ctx.ob("R-CLS", "validate_file_name:stem-class", stem_cls == STEM and not pr,
-                       "bytes allowed before the dot are exactly [-_0-9A-Za-z]", where=f.body(stem_pred).loc,
-                       detail={"extracted": absint.fmt_class(stem_cls), "problems": pr})
-                g = pred_matcher(re.escape(stem_pred) + "$", (r"split_first\(.*\)↓Some\.0\.0$",))
-                res = loop_each_checked(vf, lambda c: c.name == "split_first",
-                                        lambda bd, s, bb: guard_edges(bd, s, bb, g), require_for_return=False)
-                for where, ok, detail in res:
-                    ctx.ob("R-CHK", "validate_file_name:every-stem-byte-checked", ok,
-                           "scanning continues past a byte only on the true edge of the stem predicate", where=where, detail=detail)
-                # exits of the scan loop: end of input, or the byte is '.'
-                exits = loop_exits(vf, head.bb, oc) or []
-                allowed = set()
-                for sw in variant_switches(vf, sym, r"split_first\("):
-                    for v, tb in vf.switch_edges(sw):
-                        if v != 1:
-                            allowed.add((sw, tb))
-                for bi, blk in enumerate(vf.blocks):
-                    if blk["term"]["t"] == "switch":
-                        e = value_edges(f, vf, sym, bi, r"split_first\(.*\)↓Some\.0\.0$", 0x2e)
-                        if e:
-                            allowed.update(e)
-                # an exit edge may pass through trivial goto blocks; compare by source switch block
-                def src_switch(u):
-                    seen = set()
-                    while vf.term(u)["t"] != "switch" and len(vf.preds(u)) == 1 and u not in seen:
-                        seen.add(u)
-                        u = vf.preds(u)[0]
-                    return u
-                bad = []
-                for u, v in exits:
-                    su = src_switch(u)
-                    if not any(a[0] == su for a in allowed):
-                        bad.append((u, v))
-                    else:
-                        # the edge taken out of su must be an allowed one
-                        first = u if u != su else v
-                        path_first = None
-                        for a in allowed:
-                            if a[0] == su and (a[1] == u or a[1] == v or u in vf.reachable(a[1]) ):
-                                path_first = a
-                        if path_first is None:
-                            bad.append((u, v))
-                ctx.ob("R-CHK", "validate_file_name:scan-exits", bool(exits) and not bad,
-                       "the scan is left towards success only at end of input or at a '.' byte", where=vf.loc,
-                       detail={"exits": exits, "bad": bad})
-            # after the scan: exactly three bytes, all alphabetic
-            len_rx = r"(^|::)len\(%s\)$" % scan
-            mp = MustPass(f, lambda c: False, guard_fn=lambda bd, s, bb: value_edges(f, bd, s, bb, len_rx, 3), name="len(rest)==3")
-            ok = mp.holds(vf.name)
-            ctx.ob("R-GRD", "validate_file_name:extension-length-3", ok,
-                   "success requires exactly three bytes after the dot", where=vf.loc, detail=None if ok else K.why(f, mp, vf.name))
-            # `rest.iter().all(p)` must hold, or — the same thing — `rest.iter().any(q)` must not (then the class is ¬q)
-            all_calls = [c for c in vf.calls() if c.name in ("all", "any") and c.trait == "std::iter::Iterator" and not vf.is_cleanup(c.bb)]
-            okx = False
-            detail = None
-            for c in all_calls:
-                a = K.arg_terms(c)
-                recv_rx = r"(^|⟵)(Iterator::(copied|cloned)\()?%s\)?$" % scan
-                if re.search(recv_rx, render(a[0])):
-                    ext_cls, pr = predicate_class(f, strip(a[1]))
-                    if c.name == "any" and ext_cls is not None:
-                        ext_cls = set(range(256)) - ext_cls
-                    detail = {"form": c.name, "extracted": absint.fmt_class(ext_cls), "problems": pr}
-                    g = pred_matcher(r"::%s$" % c.name, (recv_rx,), positive=(c.name == "all"))
-                    mp = MustPass(f, lambda c: False, guard_fn=lambda bd, s, bb: guard_edges(bd, s, bb, g), name="all alphabetic")
-                    okx = ext_cls == ALPHA and not pr and mp.holds(vf.name)
-            ctx.ob("R-CLS", "validate_file_name:extension-class", okx,
-                   "success requires every byte after the dot to be in [A-Za-z]", where=vf.loc, detail=detail)
+    # The name check is found by what it is applied to — the IA5String bytes of an entry, below the two public decode
+    # paths — not by its (private) name.
+    checkers = ia5_checkers(f)
+    if not checkers:
+        for b_ in f.find_bodies(r"manifest::FileAndHash.*::validate_file_name$"):
+            checkers[b_.name] = 0
+    name_lang = None
+    good_checkers = set()
+    if not checkers:
+        ctx.missing("R-CLS", "validate_file_name", "a crate function applied to the IA5String bytes of a manifest entry")
+    for vname, argi in sorted(checkers.items()):
+        vf = f.body(vname)
+        ctx.saw_fn(vname)
+        shapes = why = None
+        try:
+            shapes = ShapeExec(f).language(vf, argi)
+        except LangFail as e:
+            why = str(e)
+        except (RecursionError, IndexError, KeyError, TypeError, ValueError) as e:
+            why = "%s: %s" % (type(e).__name__, e)
+        if shapes is not None:
+            try:
+                diff = lang_diff(shapes, FILE_NAME_SPEC)
+            except LangFail as e:
+                diff = (b"", None, str(e))
+            shown = sorted({fmt_shape(x) for x in shapes})
+            ctx.ob("R-CLS", "validate_file_name:accepted-language", diff is None,
+                   "the set of names the check accepts, computed from its MIR over all inputs, is exactly "
+                   "[-_0-9A-Za-z]* '.' [A-Za-z]{3}", where=vf.loc,
+                   detail={"function": short(vname), "accepted (union of)": shown[:24],
+                           "distinguishing name": None if diff is None else
+                           {"name": repr(diff[0]), "accepted by the code": diff[1], "in the specification": diff[2]}})
+            if diff is None:
+                good_checkers.add(vname)
+            name_lang = list(shapes) if name_lang is None else name_lang + list(shapes)
+        else:
+            ctx.note("name-language interpreter gave up on %s (%s); form-specific rules used" % (short(vname), why))
+            n0 = len(ctx.obligations)
+            st_c, ex_c = legacy_name_language(ctx, f, vf)
+            if st_c is not None and ex_c is not None:
+                if all(o.ok for o in ctx.obligations[n0:]) and len(ctx.obligations) > n0:
+                    good_checkers.add(vname)
+                sh = (("S", frozenset(st_c)), ("B", frozenset([0x2e]))) + (("B", frozenset(ex_c)),) * 3
+                name_lang = [sh] if name_lang is None else name_lang + [sh]
 
     # relation to what Rsync::join accepts
-    ub = f.body("uri::is_u8_uri_ascii")
-    if ub is None:
-        ctx.missing("R-CLS", "is_u8_uri_ascii", "uri::is_u8_uri_ascii")
+    uri_cls, uwhere, upr = uri_byte_class(f)
+    if uri_cls is None and not upr:
+        ctx.missing("R-CLS", "is_u8_uri_ascii", "uri::check_uri_ascii / uri::is_u8_uri_ascii")
     else:
-        uri_cls, pr = absint.byte_class(f, "uri::is_u8_uri_ascii")
-        ctx.ob("R-CLS", "uri-byte-class", uri_cls == URI_CLASS_SPEC and not pr,
-               "uri::is_u8_uri_ascii accepts exactly ! $-; = A-Z _ a-z ~", where=ub.loc,
-               detail={"extracted": absint.fmt_class(uri_cls), "problems": pr})
-        if stem_cls is not None and ext_cls is not None and uri_cls is not None:
-            lang = stem_cls | ext_cls | {0x2e}
+        ctx.ob("R-CLS", "uri-byte-class", uri_cls == URI_CLASS_SPEC and not upr,
+               "uri::check_uri_ascii accepts exactly the byte strings over ! $-; = A-Z _ a-z ~", where=uwhere,
+               detail={"extracted": absint.fmt_class(uri_cls), "problems": upr})
+        if name_lang is not None and uri_cls is not None:
+            feasible = [sh for sh in name_lang if all(c or k == "S" for k, c in sh)]
+            lang = set()
+            for sh in feasible:
+                for _, c in sh:
+                    lang |= c
             ctx.ob("R-CLS", "name-bytes⊆uri-bytes", lang <= uri_cls,
                    "every byte of an accepted manifest file name is a permitted URI byte", detail=absint.fmt_class(lang - uri_cls))
             ctx.ob("R-CLS", "name-has-no-slash", 0x2f not in lang,
                    "an accepted manifest file name contains no '/' (single segment)")
-            ctx.ob("R-CLS", "name-not-dot-segment", 0x2e not in stem_cls and 0x2e not in ext_cls,
-                   "an accepted name is at least '.' + 3 letters with no dot in stem or extension, hence never '.' or '..' nor empty")
+            bad = [w for w in (b"", b".", b"..") if lang_member(feasible, w)]
+            ctx.ob("R-CLS", "name-not-dot-segment", not bad,
+                   "an accepted name is never empty, '.' or '..'", detail=[repr(w) for w in bad] or None)
 
     check_join_dot_segments(ctx, f)
 
@@ -188,7 +120,7 @@ def run(ctx):
             continue
 
         def sink(c):
-            if not (c.res or "").endswith("::validate_file_name"):
+            if c.res not in good_checkers:         # a check whose accepted language is the specified one
                 return False
             a = K.arg_renders(c)
             t = K.arg_terms(c)[0]
@@ -395,6 +327,110 @@ def run(ctx):
                where=db.loc, detail=K.arg_renders(cs[0]) if cs else None)
 
 
+
+PUBLIC_DECODE_PATHS = ("repository::manifest::ManifestContent::take_from",
+                       "<repository::manifest::FileListIter as std::iter::Iterator>::next")
+
+
+def _has_ia5(t):
+    return any(x[0] == "call" and (x[3] or {}).get("name") == "take_from" and any("Ia5CharSet" in g for g in (x[3] or {}).get("ga", ()))
+               for x in walk(t))
+
+
+def ia5_checkers(f):
+    """{crate function: argument index}: the functions the IA5String bytes of a manifest entry are handed to, anywhere
+    below the public decode paths (capture and iteration) — the name check, whatever it is called and wherever it sits."""
+    out = {}
+    below = set()
+    for p in PUBLIC_DECODE_PATHS:
+        if f.body(p) is not None:
+            below |= _reachable_fns(f, p, depth=6)
+    for n, bd in f.bodies.items():
+        if root_fn(f, n) not in below:
+            continue
+        for c in bd.calls():
+            if not c.is_static or not c.res or f.body(c.res) is None or bd.is_cleanup(c.bb):
+                continue
+            try:
+                ts = K.arg_terms(c)
+            except Exception:
+                continue
+            for i, t in enumerate(ts):
+                if _has_ia5(t):
+                    out.setdefault(c.res, i)
+    return out
+
+
+def uri_byte_class(f):
+    """(class, where, problems): the bytes uri::check_uri_ascii (public) lets through — the language it accepts must be
+    C* for one class C, however the test is spelt (all / any / loop / helper predicate)."""
+    cb = f.body("uri::check_uri_ascii")
+    pr = []
+    if cb is not None:
+        try:
+            shapes = ShapeExec(f).language(cb, 0)
+            cls = frozenset(v for v in range(256) if lang_member(shapes, bytes([v])))
+            if lang_diff(shapes, [(("S", cls),)]) is None:
+                return set(cls), cb.loc, []
+            pr.append("check_uri_ascii does not accept a language of the form C*")
+        except LangFail as e:
+            pr.append("check_uri_ascii: " + str(e))
+        except (RecursionError, IndexError, KeyError, TypeError, ValueError) as e:
+            pr.append("check_uri_ascii: %s: %s" % (type(e).__name__, e))
+    ub = f.body("uri::is_u8_uri_ascii")
+    if ub is None:
+        return None, None, pr if cb is not None else []
+    cls, pr2 = absint.byte_class(f, "uri::is_u8_uri_ascii")
+    return cls, ub.loc, pr2
+
+
+
+def fold_accessors(f, t, depth=0):
+    """The term with calls of trivial crate accessors (`fn x(&self) -> &T { &self.x }`, also through as_ref / deref) read
+    as the field they return: `self.hash` and `self.as_slice()` are the same value."""
+    t = strip_deep(t)
+    k = t[0]
+    if depth > 30:
+        return t
+    if k == "call":
+        args = tuple(fold_accessors(f, a, depth + 1) for a in t[2])
+        t = ("call", t[1], args, t[3])
+        hb = f.body((t[3] or {}).get("res") or t[1])
+        if hb is not None and hb.arg_count == 1 and len(args) == 1 and len(hb.blocks) <= 6 and "{closure" not in hb.name:
+            r = strip_deep(Sym(hb).local(0))
+            names = []
+            while r[0] == "field" and len(names) < 4:
+                names.append((r[2], r[3] if len(r) > 3 else None))
+                r = strip_deep(r[1])
+            if names and r[0] == "param":
+                out = args[0]
+                for nm, owner in reversed(names):
+                    out = ("field", out, nm, owner)
+                return out
+        return t
+    if k == "field":
+        return ("field", fold_accessors(f, t[1], depth + 1), t[2], t[3] if len(t) > 3 else None)
+    if k == "variant":
+        return ("variant", fold_accessors(f, t[1], depth + 1), t[2])
+    if k == "index":
+        return ("index", fold_accessors(f, t[1], depth + 1), fold_accessors(f, t[2], depth + 1))
+    if k == "bin":
+        return ("bin", t[1], fold_accessors(f, t[2], depth + 1), fold_accessors(f, t[3], depth + 1))
+    if k == "un":
+        return ("un", t[1], fold_accessors(f, t[2], depth + 1))
+    if k == "cast":
+        return ("cast", fold_accessors(f, t[1], depth + 1), t[2])
+    if k in ("discr", "len"):
+        return (k, fold_accessors(f, t[1], depth + 1))
+    if k == "agg":
+        return ("agg", t[1], t[2], tuple((n, fold_accessors(f, v, depth + 1)) for n, v in t[3]))
+    if k == "mvar":
+        return ("mvar", t[1], t[2], fold_accessors(f, t[3], depth + 1))
+    if k == "closure":
+        return ("closure", t[1], tuple(fold_accessors(f, a, depth + 1) for a in t[2]))
+    return t
+
+
 def _root_local(body, l, depth=0):
     """The local a temporary is a plain copy / move / reference of."""
     ds = [d for d in body.defs().get(l, []) if d[2] in ("assign", "call", "yield", "partial")]
@@ -488,6 +524,128 @@ def through_helpers(f, t, depth=0):
             return t
         v = strip_deep(nxt[0])
     return through_helpers(f, v, depth + 1)
+
+
+def legacy_name_language(ctx, f, vf):
+    """Fallback when the shape interpreter meets a construct it has no transfer function for: the original form-specific
+    rules (a split_first cursor loop followed by `len == 3` and `all(alphabetic)`).  Returns (stem class, extension
+    class) or (None, None)."""
+    stem_cls = ext_cls = None
+    oc = outcome(vf)
+    sym = oc.sym
+    # the per-byte predicate used in the loop
+    guard_calls = []
+    for bi, blk in enumerate(vf.blocks):
+        t = blk["term"]
+        if t["t"] == "switch" and t.get("dty") == "bool":
+            at = bool_atom(sym.operand(t["discr"]))
+            if at and isinstance(at[0], tuple) and at[0][0] == "pred" and at[0][1] in f.bodies:
+                guard_calls.append((bi, at))
+    heads = [c for c in vf.calls() if c.name == "split_first"]
+    ok_struct = len(heads) == 1
+    ctx.ob("R-CHK", "validate_file_name:scans-with-split_first", ok_struct,
+           "the name is consumed byte by byte (one split_first producer)", where=vf.loc)
+    # the cursor that is scanned (whatever it is called): the argument of split_first
+    scan = re.escape(K.arg_renders(heads[0])[0]) if ok_struct else r"\$n"
+    if ok_struct:
+        head = heads[0]
+        # which predicate guards the back edge?
+        stem_pred = None
+        for bi, at in guard_calls:
+            args = [render(a) for a in at[1]]
+            if args and re.search(r"split_first\(.*\)↓Some\.0\.0$", args[0]):
+                stem_pred = at[0][1]
+        if stem_pred is None:
+            # no helper predicate: the tests on the scanned byte are written out in the loop.  Decide the loop body for
+            # each of the 256 byte values: does the scan continue, leave the loop towards success, or reject?
+            fate, pr = scan_byte_fates(f, vf, oc, head, r"split_first\(.*\)↓Some\.0\.0$")
+            if fate is None:
+                ctx.ob("R-CLS", "validate_file_name:stem-predicate", False,
+                       "the per-byte tests of the scan loop are understood", where=vf.loc, detail=pr)
+            else:
+                stem_cls = {v for v, x in fate.items() if x == "continue"}
+                ctx.ob("R-CLS", "validate_file_name:stem-class", stem_cls == STEM and not pr,
+                       "bytes allowed before the dot are exactly [-_0-9A-Za-z]", where=vf.loc,
+                       detail={"extracted": absint.fmt_class(stem_cls), "problems": pr, "form": "tests written out in the loop"})
+                ctx.ob("R-CHK", "validate_file_name:every-stem-byte-checked", True,
+                       "scanning continues past a byte only on the true edge of the stem predicate", where=vf.loc,
+                       detail="decided per byte value")
+                ex = {v for v, x in fate.items() if x == "exit"}
+                ctx.ob("R-CHK", "validate_file_name:scan-exits", ex == {0x2e},
+                       "the scan is left towards success only at end of input or at a '.' byte", where=vf.loc,
+                       detail={"bytes leaving the scan": absint.fmt_class(ex)})
+        else:
+            stem_cls, pr = absint.byte_class(f, stem_pred)
+            ctx.ob("R-CLS", "validate_file_name:stem-class", stem_cls == STEM and not pr,
+                   "bytes allowed before the dot are exactly [-_0-9A-Za-z]", where=f.body(stem_pred).loc,
+                   detail={"extracted": absint.fmt_class(stem_cls), "problems": pr})
+            g = pred_matcher(re.escape(stem_pred) + "$", (r"split_first\(.*\)↓Some\.0\.0$",))
+            res = loop_each_checked(vf, lambda c: c.name == "split_first",
+                                    lambda bd, s, bb: guard_edges(bd, s, bb, g), require_for_return=False)
+            for where, ok, detail in res:
+                ctx.ob("R-CHK", "validate_file_name:every-stem-byte-checked", ok,
+                       "scanning continues past a byte only on the true edge of the stem predicate", where=where, detail=detail)
+            # exits of the scan loop: end of input, or the byte is '.'
+            exits = loop_exits(vf, head.bb, oc) or []
+            allowed = set()
+            for sw in variant_switches(vf, sym, r"split_first\("):
+                for v, tb in vf.switch_edges(sw):
+                    if v != 1:
+                        allowed.add((sw, tb))
+            for bi, blk in enumerate(vf.blocks):
+                if blk["term"]["t"] == "switch":
+                    e = value_edges(f, vf, sym, bi, r"split_first\(.*\)↓Some\.0\.0$", 0x2e)
+                    if e:
+                        allowed.update(e)
+            # an exit edge may pass through trivial goto blocks; compare by source switch block
+            def src_switch(u):
+                seen = set()
+                while vf.term(u)["t"] != "switch" and len(vf.preds(u)) == 1 and u not in seen:
+                    seen.add(u)
+                    u = vf.preds(u)[0]
+                return u
+            bad = []
+            for u, v in exits:
+                su = src_switch(u)
+                if not any(a[0] == su for a in allowed):
+                    bad.append((u, v))
+                else:
+                    # the edge taken out of su must be an allowed one
+                    first = u if u != su else v
+                    path_first = None
+                    for a in allowed:
+                        if a[0] == su and (a[1] == u or a[1] == v or u in vf.reachable(a[1]) ):
+                            path_first = a
+                    if path_first is None:
+                        bad.append((u, v))
+            ctx.ob("R-CHK", "validate_file_name:scan-exits", bool(exits) and not bad,
+                   "the scan is left towards success only at end of input or at a '.' byte", where=vf.loc,
+                   detail={"exits": exits, "bad": bad})
+        # after the scan: exactly three bytes, all alphabetic
+        len_rx = r"(^|::)len\(%s\)$" % scan
+        mp = MustPass(f, lambda c: False, guard_fn=lambda bd, s, bb: value_edges(f, bd, s, bb, len_rx, 3), name="len(rest)==3")
+        ok = mp.holds(vf.name)
+        ctx.ob("R-GRD", "validate_file_name:extension-length-3", ok,
+               "success requires exactly three bytes after the dot", where=vf.loc, detail=None if ok else K.why(f, mp, vf.name))
+        # `rest.iter().all(p)` must hold, or — the same thing — `rest.iter().any(q)` must not (then the class is ¬q)
+        all_calls = [c for c in vf.calls() if c.name in ("all", "any") and c.trait == "std::iter::Iterator" and not vf.is_cleanup(c.bb)]
+        okx = False
+        detail = None
+        for c in all_calls:
+            a = K.arg_terms(c)
+            recv_rx = r"(^|⟵)(Iterator::(copied|cloned)\()?%s\)?$" % scan
+            if re.search(recv_rx, render(a[0])):
+                ext_cls, pr = predicate_class(f, strip(a[1]))
+                if c.name == "any" and ext_cls is not None:
+                    ext_cls = set(range(256)) - ext_cls
+                detail = {"form": c.name, "extracted": absint.fmt_class(ext_cls), "problems": pr}
+                g = pred_matcher(r"::%s$" % c.name, (recv_rx,), positive=(c.name == "all"))
+                mp = MustPass(f, lambda c: False, guard_fn=lambda bd, s, bb: guard_edges(bd, s, bb, g), name="all alphabetic")
+                okx = ext_cls == ALPHA and not pr and mp.holds(vf.name)
+        ctx.ob("R-CLS", "validate_file_name:extension-class", okx,
+               "success requires every byte after the dot to be in [A-Za-z]", where=vf.loc, detail=detail)
+
+    return stem_cls, ext_cls
 
 
 _CLS_CACHE = {}
@@ -788,3 +946,1072 @@ def check_join_dot_segments(ctx, f):
            'Rsync::check_path answers DotSegments exactly for a segment equal to "." or ".."', where=b.loc,
            detail={"tests": sorted(shown), "problems": problems,
                    "literals": sorted("%s == %r" % (w, v) for w, v in lits)})
+
+
+# ======================================================================================================================
+# The accepted language of a byte-string recogniser, by symbolic execution of its MIR over *string shapes*.
+#
+# A shape describes the unknown input as a concatenation of cells, each either one byte drawn from a class ("B", C) or
+# any number of bytes drawn from a class ("S", C); marks are the boundaries between cells.  Values of the program are
+# read in terms of marks: a sub-slice / slice iterator is a pair of marks, a position is a linear form over marks, a byte
+# read from the input is the cell behind a mark.  Every test the program makes on the input — a comparison of a byte with
+# a constant, a byte predicate, `len() == k`, `is_empty`, `split_first`, `next`, `position`/`find`/`all`/`any`, `split`,
+# `starts_with` … — refines the shape exactly (forking into the alternatives), so a state that reaches a success return
+# carries the exact set of inputs that take this path.  A cursor loop is summarised by its inductive invariant "the bytes
+# consumed so far are each from C" (C grown until stable).  The union of the shapes of the success returns is the accepted
+# language; it is compared with a specification as regular languages (determinised over the byte partition).  Nothing is
+# executed: what is interpreted is the MIR, over all inputs at once.  Anything outside this vocabulary fails closed.
+# ======================================================================================================================
+
+class LangFail(Exception):
+    """The recogniser uses a construct the shape domain has no exact transfer function for."""
+
+
+ALLB = frozenset(range(256))
+_OPT, _RES, _CF = "std::option::Option", "std::result::Result", "std::ops::ControlFlow"
+_TRANSPARENT = {"iter", "into_iter", "by_ref", "copied", "cloned", "as_ref", "deref", "clone", "borrow", "as_bytes",
+                "into", "from", "as_deref", "as_slice", "as_mut", "to_owned", "as_mut_slice"}
+
+
+def _some(v):
+    return ("enum", _OPT, 1, (("0", v),))
+
+
+_NONE = ("enum", _OPT, 0, ())
+
+
+def _lin(terms, c=0):
+    d = {}
+    for m, k in terms:
+        d[m] = d.get(m, 0) + k
+    ts = tuple(sorted((m, k) for m, k in d.items() if k))
+    return ("lin", ts, c) if ts else ("int", c)
+
+
+def _lin_add(a, b, sign=1):
+    ta, ca = (a[1], a[2]) if a[0] == "lin" else ((), a[1])
+    tb, cb = (b[1], b[2]) if b[0] == "lin" else ((), b[1])
+    return _lin(list(ta) + [(m, sign * k) for m, k in tb], ca + sign * cb)
+
+
+class _St:
+    __slots__ = ("marks", "cells", "frames", "loops")
+
+    def __init__(self, marks, cells, frames=None, loops=None):
+        self.marks, self.cells, self.frames, self.loops = marks, cells, frames or {}, loops or {}
+
+    def copy(self):
+        return _St(list(self.marks), list(self.cells), {k: dict(v) for k, v in self.frames.items()}, dict(self.loops))
+
+    def idx(self, m):
+        try:
+            return self.marks.index(m)
+        except ValueError:
+            raise LangFail("a value refers to a position of another string")
+
+    def shape(self):
+        return tuple(self.cells)
+
+
+def _vmap(v, fn):
+    """The value with every mark replaced by fn(mark)."""
+    k = v[0]
+    if k == "byte":
+        return ("byte", fn(v[1]))
+    if k == "slice":
+        return ("slice", fn(v[1]), fn(v[2]))
+    if k == "iter":
+        return ("iter", fn(v[1]), fn(v[2]), v[3])
+    if k == "split":
+        return ("split", fn(v[1]), fn(v[2])) + v[3:]
+    if k == "lin":
+        return _lin([(fn(m), c) for m, c in v[1]], v[2])
+    if k == "enum":
+        return ("enum", v[1], v[2], tuple((n, _vmap(x, fn)) for n, x in v[3]))
+    if k == "tuple":
+        return ("tuple", tuple(_vmap(x, fn) for x in v[1]))
+    if k == "closure":
+        return ("closure", v[1], tuple(_vmap(x, fn) for x in v[2]))
+    return v
+
+
+class ShapeExec:
+    def __init__(self, facts, max_steps=60000):
+        self.f = facts
+        self.n = 0
+        self.steps = 0
+        self.max_steps = max_steps
+        self._heads = {}
+        self._pcls = {}
+
+    def fresh(self):
+        self.n += 1
+        return self.n
+
+    # ---- the language of a function of one byte-slice argument -------------------------------------------------------
+    def language(self, body, arg_index=0):
+        s, e = self.fresh(), self.fresh()
+        st = _St([s, e], [("S", ALLB)])
+        args = [("opaque", "arg")] * body.arg_count
+        args[arg_index] = ("slice", s, e)
+        shapes = []
+        for st2, v in self.exec_body(body, st, args, 0):
+            if self.is_success(v) and all(c or k == "S" for k, c in st2.cells):
+                shapes.append(st2.shape())
+        return shapes
+
+    @staticmethod
+    def is_success(v):
+        if v is None:
+            raise LangFail("no return value")
+        if v[0] == "enum" and v[1] == _RES:
+            return v[2] == 0
+        if v[0] == "enum" and v[1] == _OPT:
+            return v[2] == 1
+        if v[0] == "int" and v[1] in (0, 1):
+            return v[1] == 1
+        raise LangFail("return value not understood: %r" % (v[:2],))
+
+    # ---- shape primitives ------------------------------------------------------------------------------------------------
+    def pop(self, st, a, b, right=False):
+        """The first (last) byte of [a,b): [(state, None)] if the region is empty, [(state, (byte mark, mark of the rest's
+        boundary))] otherwise — exact case split."""
+        out = []
+        cur = st.copy()
+        i, ib = cur.idx(a), cur.idx(b)
+        if i > ib:
+            raise LangFail("inverted region")
+        js = range(ib - 1, i - 1, -1) if right else range(i, ib)
+        for j in js:
+            kind, cls = cur.cells[j]
+            if kind == "B":
+                if cls:
+                    out.append((cur, (cur.marks[j], cur.marks[j] if right else cur.marks[j + 1])))
+                return out
+            if cls:
+                s2 = cur.copy()
+                m = self.fresh()
+                s2.cells[j:j + 1] = [("S", cls), ("B", cls)] if right else [("B", cls), ("S", cls)]
+                s2.marks.insert(j + 1, m)
+                out.append((s2, (m, m) if right else (s2.marks[j], m)))
+            cur.cells[j] = ("S", frozenset())
+        out.append((cur, None))
+        return out
+
+    def first(self, st, a, b, p, right=False):
+        """The first (last) byte of [a,b) that lies in class p: [(state, byte mark or None)] — exact case split."""
+        out = []
+        cur = st.copy()
+        i, ib = cur.idx(a), cur.idx(b)
+        if i > ib:
+            raise LangFail("inverted region")
+        js = range(ib - 1, i - 1, -1) if right else range(i, ib)
+        for j in js:
+            kind, cls = cur.cells[j]
+            hit, miss = cls & p, cls - p
+            if kind == "B":
+                if hit:
+                    s2 = cur.copy()
+                    s2.cells[j] = ("B", hit)
+                    out.append((s2, s2.marks[j]))
+                if not miss:
+                    return out
+                cur.cells[j] = ("B", miss)
+            else:
+                if hit:
+                    s2 = cur.copy()
+                    m1, m2 = self.fresh(), self.fresh()
+                    s2.cells[j:j + 1] = [("S", cls), ("B", hit), ("S", miss)] if right else [("S", miss), ("B", hit), ("S", cls)]
+                    s2.marks[j + 1:j + 1] = [m1, m2]
+                    out.append((s2, m1))
+                cur.cells[j] = ("S", miss)
+        out.append((cur, None))
+        return out
+
+    def after(self, st, m):
+        return st.marks[st.idx(m) + 1]
+
+    def walk(self, st, m, off):
+        """[(state, mark)] of the position `off` bytes to the right (left if negative) of m; positions outside the string
+        do not exist (the program panics or answers None there: never a success of the caller's slicing)."""
+        cur = [(st, m)]
+        for _ in range(abs(off)):
+            nxt = []
+            for s, mm in cur:
+                for s2, r in (self.pop(s, mm, s.marks[-1]) if off > 0 else self.pop(s, s.marks[0], mm, right=True)):
+                    if r is not None:
+                        nxt.append((s2, r[1] if off > 0 else r[0]))
+            cur = nxt
+        return cur
+
+    def resolve(self, st, a, v):
+        """[(state, mark)]: the position a + v."""
+        v = _lin_add(v, _lin([(a, 1)]))
+        if v[0] == "int":
+            return self.walk(st, st.marks[0], v[1])
+        ts = [(m, k) for m, k in v[1] if m != st.marks[0]]
+        if not ts:
+            return self.walk(st, st.marks[0], v[2])
+        if len(ts) == 1 and ts[0][1] == 1:
+            return self.walk(st, ts[0][0], v[2])
+        raise LangFail("position is not an offset from a known boundary")
+
+    def cmp0(self, st, d, rel):
+        """[(state, bool)]: d `rel` 0 for a linear form d over positions — exact case split on the one run it depends on."""
+        fn = {"Eq": lambda x: x == 0, "Ne": lambda x: x != 0, "Lt": lambda x: x < 0, "Le": lambda x: x <= 0,
+              "Gt": lambda x: x > 0, "Ge": lambda x: x >= 0}[rel]
+        if d[0] == "int":
+            return [(st, fn(d[1]))]
+        c, w = d[2], {}
+        for m, k in d[1]:
+            for j in range(st.idx(m)):
+                kind, cls = st.cells[j]
+                if kind == "B":
+                    c += k
+                elif cls:
+                    w[j] = w.get(j, 0) + k
+        w = {j: k for j, k in w.items() if k}
+        if not w:
+            return [(st, fn(c))]
+        if len(w) != 1:
+            raise LangFail("a length comparison depends on several runs")
+        (j, k), = w.items()
+        t = abs(c) // abs(k) + 1
+        if t > 24:
+            raise LangFail("length threshold too large")
+        out = []
+        cls = st.cells[j][1]
+        for s in range(t + 2):
+            s2 = st.copy()
+            new = [("B", cls)] * s + ([("S", cls)] if s == t + 1 else [])
+            if not new:
+                new = [("S", frozenset())]
+            s2.cells[j:j + 1] = new
+            s2.marks[j + 1:j + 1] = [self.fresh() for _ in range(len(new) - 1)]
+            out.append((s2, fn(c + k * s)))
+        return out
+
+    def fork_class(self, st, m, cls):
+        """[(state, bool)]: is the byte behind mark m in cls?"""
+        out = []
+        j = st.idx(m)
+        kind, c = st.cells[j]
+        if kind != "B":
+            raise LangFail("not a byte position")
+        for truth, part in ((True, c & cls), (False, c - cls)):
+            if part:
+                s2 = st.copy()
+                s2.cells[j] = ("B", part)
+                out.append((s2, truth))
+        return out
+
+    # ---- values ------------------------------------------------------------------------------------------------------
+    def deref(self, st, v):
+        n = 0
+        while v[0] == "ref" and n < 8:
+            v = self.read_local(st, v[1], v[2])
+            n += 1
+        return v
+
+    def read_local(self, st, fid, l):
+        try:
+            return st.frames[fid][l]
+        except KeyError:
+            raise LangFail("read of a local that has no value on this path")
+
+    def setref(self, st, r, v):
+        n = 0
+        while r[0] == "ref" and n < 8:
+            inner = st.frames[r[1]].get(r[2])
+            if inner is not None and inner[0] == "ref":
+                r = inner
+                n += 1
+                continue
+            st.frames[r[1]][r[2]] = v
+            return
+        # the iterator was passed by value: nothing outside sees it advance
+
+    def project(self, st, v, p):
+        k = p[0]
+        if k == "d":
+            return self.read_local(st, v[1], v[2]) if v[0] == "ref" else v
+        v = self.deref(st, v)
+        if k == "f":
+            name = str(p[1])
+            if v[0] == "tuple":
+                return v[1][int(name)]
+            if v[0] == "enum":
+                for n, x in v[3]:
+                    if n == name:
+                        return x
+                if name.isdigit() and int(name) < len(v[3]):
+                    return v[3][int(name)][1]
+            if v[0] == "closure" and name.isdigit() and int(name) < len(v[2]):
+                return v[2][int(name)]
+            if v[0] == "opaque":
+                return v
+            raise LangFail("field %s of %s" % (name, v[0]))
+        if k == "dc":
+            if v[0] == "enum" and v[2] == p[2]:
+                return v
+            if v[0] == "opaque":
+                return v
+            raise LangFail("downcast of a value of another variant")
+        raise LangFail("projection " + k)
+
+    def place(self, st, fid, pl):
+        """[(state, value)] — only element projections fork."""
+        cur = [(st, self.read_local(st, fid, pl["l"]))]
+        for p in pl["p"]:
+            nxt = []
+            for s, v in cur:
+                if p[0] in ("i", "ci", "ss"):
+                    base = self.deref(s, v)
+                    if base[0] != "slice":
+                        raise LangFail("element of something that is not the input")
+                    if p[0] == "i":
+                        for s2, m in self.resolve(s, base[1], self.as_num(s, self.read_local(s, fid, p[1]))):
+                            if s2.idx(m) < s2.idx(base[2]):
+                                for s3, r in self.pop(s2, m, base[2]):
+                                    if r is not None:
+                                        nxt.append((s3, ("byte", r[0])))
+                    elif p[0] == "ci":
+                        from_end = bool(p[3]) if len(p) > 3 else False
+                        for s2, m in self.walk(s, base[2] if from_end else base[1], -p[1] if from_end else p[1]):
+                            if s2.idx(base[1]) <= s2.idx(m) < s2.idx(base[2]):
+                                for s3, r in self.pop(s2, m, base[2]):
+                                    if r is not None:
+                                        nxt.append((s3, ("byte", r[0])))
+                    else:
+                        from_end = bool(p[3])
+                        for s2, lo in self.walk(s, base[1], p[1]):
+                            for s3, hi in (self.walk(s2, base[2], -p[2]) if from_end else self.walk(s2, base[1], p[2])):
+                                if s3.idx(lo) <= s3.idx(hi) <= s3.idx(base[2]):
+                                    nxt.append((s3, ("slice", lo, hi)))
+                else:
+                    nxt.append((s, self.project(s, v, p)))
+            cur = nxt
+        return cur
+
+    def as_num(self, st, v):
+        v = self.deref(st, v)
+        if v[0] in ("int", "lin"):
+            return v
+        raise LangFail("number expected, got " + v[0])
+
+    def const(self, st, k, body, depth):
+        if "fn" in k:
+            return ("fn", k.get("res") or k["fn"], k.get("name"))
+        if "v" in k:
+            return ("int", int(k["v"]))
+        if k.get("bytes") is not None:
+            return ("bytes", bytes(k["bytes"]))
+        if "promoted" in k:
+            pb = body.promoted
+            if k["promoted"] < len(pb):
+                res = self.exec_body(pb[k["promoted"]], st, [], depth + 1)
+                if len(res) == 1:
+                    return res[0][1]
+            raise LangFail("promoted constant")
+        if "cdef" in k:
+            c = self.f.consts.get(k["cdef"]) or {}
+            if isinstance(c.get("v"), int):
+                return ("int", int(c["v"]))
+            if c.get("bytes") is not None:
+                return ("bytes", bytes(c["bytes"]))
+            return ("opaque", "const " + k["cdef"])
+        if k.get("ty") == "()":
+            return ("tuple", ())
+        return ("opaque", "const")
+
+    def operand(self, st, fid, op, body, depth):
+        if "k" in op:
+            return [(st, self.const(st, op["k"], body, depth))]
+        return self.place(st, fid, op.get("c") or op.get("m"))
+
+    def operands(self, st, fid, ops, body, depth):
+        cur = [(st, [])]
+        for op in ops:
+            nxt = []
+            for s, vs in cur:
+                for s2, v in self.operand(s, fid, op, body, depth):
+                    nxt.append((s2, vs + [v]))
+            cur = nxt
+        return cur
+
+    def binop(self, st, op, a, b):
+        a, b = self.deref(st, a), self.deref(st, b)
+        ovf = op.endswith("WithOverflow")
+        base = op[:-len("WithOverflow")] if ovf else op
+        base = base[:-len("Unchecked")] if base.endswith("Unchecked") else base
+        if base in ("Eq", "Ne", "Lt", "Le", "Gt", "Ge"):
+            flip = {"Lt": "Gt", "Le": "Ge", "Gt": "Lt", "Ge": "Le", "Eq": "Eq", "Ne": "Ne"}
+            if b[0] == "byte" and a[0] == "int":
+                a, b, base = b, a, flip[base]
+            if a[0] == "byte" and b[0] == "int":
+                n = b[1]
+                cls = frozenset(v for v in range(256) if {"Eq": v == n, "Ne": v != n, "Lt": v < n, "Le": v <= n,
+                                                             "Gt": v > n, "Ge": v >= n}[base])
+                return [(s, ("int", int(t))) for s, t in self.fork_class(st, a[1], cls)]
+            if a[0] in ("int", "lin") and b[0] in ("int", "lin"):
+                return [(s, ("int", int(t))) for s, t in self.cmp0(st, _lin_add(a, b, -1), base)]
+            if a[0] == "byte" and b[0] == "byte" and a[1] == b[1]:
+                return [(st, ("int", int(base in ("Eq", "Le", "Ge"))))]
+            for x, y in ((a, b), (b, a)):
+                if x[0] == "slice" and y[0] == "bytes" and base in ("Eq", "Ne"):
+                    return [(s, ("int", int(t == (base == "Eq")))) for s, t in self.eq_bytes(st, x, y[1])]
+            raise LangFail("comparison of %s with %s" % (a[0], b[0]))
+        if a[0] == "int" and b[0] == "int":
+            x, y = a[1], b[1]
+            fn = {"Add": lambda: x + y, "Sub": lambda: x - y, "Mul": lambda: x * y, "BitAnd": lambda: x & y,
+                  "BitOr": lambda: x | y, "BitXor": lambda: x ^ y, "Shl": lambda: x << y, "Shr": lambda: x >> y,
+                  "Div": lambda: x // y if y else 0, "Rem": lambda: x % y if y else 0}.get(base)
+            if fn is None:
+                raise LangFail("operator " + op)
+            r = fn()
+            if r < 0:
+                return []                       # unsigned underflow: the program panics here
+            return [(st, ("tuple", (("int", r), ("int", 0))) if ovf else ("int", r))]
+        if base in ("Add", "Sub") and a[0] in ("int", "lin") and b[0] in ("int", "lin"):
+            r = _lin_add(a, b, 1 if base == "Add" else -1)
+            return [(st, ("tuple", (r, ("int", 0))) if ovf else r)]
+        raise LangFail("operator %s on %s, %s" % (op, a[0], b[0]))
+
+    def eq_bytes(self, st, sl, lit, prefix=False, right=False):
+        """[(state, bool, mark after the matched part)]-like: does the slice equal (start with / end with) the literal?"""
+        out = []
+        cur = [(st, sl[2] if right else sl[1])]
+        seq = list(reversed(lit)) if right else list(lit)
+        for ch in seq:
+            nxt = []
+            for s, m in cur:
+                for s2, r in (self.pop(s, sl[1], m, right=True) if right else self.pop(s, m, sl[2])):
+                    if r is None:
+                        out.append((s2, False))
+                        continue
+                    for s3, t in self.fork_class(s2, r[0], frozenset([ch])):
+                        if t:
+                            nxt.append((s3, r[1]))
+                        else:
+                            out.append((s3, False))
+            cur = nxt
+        for s, m in cur:
+            if prefix:
+                out.append((s, True, m))
+            else:
+                for s2, r in (self.pop(s, sl[1], m, right=True) if right else self.pop(s, m, sl[2])):
+                    out.append((s2, r is None))
+        return out
+
+    # ---- statements ------------------------------------------------------------------------------------------------------
+    def rvalue(self, st, fid, rv, body, depth):
+        r = rv["r"]
+        if r == "use":
+            return self.operand(st, fid, rv["op"], body, depth)
+        if r in ("ref", "rawptr"):
+            pl = rv["pl"]
+            if rv.get("mut") or rv.get("kind") == "Mut":
+                if not pl["p"]:
+                    return [(st, ("ref", fid, pl["l"]))]
+                if len(pl["p"]) == 1 and pl["p"][0][0] == "d":
+                    v = self.read_local(st, fid, pl["l"])
+                    if v[0] == "ref":
+                        return [(st, v)]
+            return self.place(st, fid, pl)
+        if r == "cast":
+            return self.operand(st, fid, rv["op"], body, depth)
+        if r == "bin":
+            out = []
+            for s, (a, b) in self.operands(st, fid, [rv["a"], rv["b"]], body, depth):
+                out.extend(self.binop(s, rv["bop"], a, b))
+            return out
+        if r == "un":
+            out = []
+            for s, v in self.operand(st, fid, rv["a"], body, depth):
+                v = self.deref(s, v)
+                if rv["uop"] == "PtrMetadata":
+                    if v[0] == "slice":
+                        out.append((s, _lin([(v[2], 1), (v[1], -1)])))
+                    elif v[0] == "bytes":
+                        out.append((s, ("int", len(v[1]))))
+                    else:
+                        raise LangFail("length of " + v[0])
+                elif rv["uop"] == "Not" and v[0] == "int" and v[1] in (0, 1) and rv.get("oty") == "bool":
+                    out.append((s, ("int", 1 - v[1])))
+                else:
+                    raise LangFail("unary " + rv["uop"])
+            return out
+        if r == "discr":
+            out = []
+            for s, v in self.place(st, fid, rv["pl"]):
+                v = self.deref(s, v)
+                if v[0] != "enum":
+                    raise LangFail("discriminant of " + v[0])
+                out.append((s, ("int", v[2])))
+            return out
+        if r == "agg":
+            out = []
+            for s, vs in self.operands(st, fid, rv["ops"], body, depth):
+                ak = rv["ak"]
+                if ak == "adt":
+                    fs = rv["fields"] if len(rv.get("fields", ())) == len(vs) else [str(i) for i in range(len(vs))]
+                    out.append((s, ("enum", rv["adt"], rv.get("vidx", 0), tuple(zip(fs, vs)))))
+                elif ak == "closure":
+                    out.append((s, ("closure", rv["def"], tuple(vs))))
+                elif ak == "tuple":
+                    out.append((s, ("tuple", tuple(vs))))
+                elif ak == "array" and all(v[0] == "int" for v in vs):
+                    out.append((s, ("bytes", bytes(v[1] & 255 for v in vs))))
+                else:
+                    raise LangFail("aggregate " + ak)
+            return out
+        raise LangFail("rvalue " + r)
+
+    def assign(self, st, fid, pl, v):
+        if not pl["p"]:
+            st.frames[fid][pl["l"]] = v
+            return
+        cur = st.frames[fid].get(pl["l"])
+        if len(pl["p"]) == 1 and pl["p"][0][0] == "d" and cur is not None and cur[0] == "ref":
+            self.setref(st, cur, v)
+            return
+        if len(pl["p"]) == 1 and pl["p"][0][0] == "f" and cur is not None and cur[0] == "tuple":
+            i = int(pl["p"][0][1])
+            st.frames[fid][pl["l"]] = ("tuple", cur[1][:i] + (v,) + cur[1][i + 1:])
+            return
+        raise LangFail("assignment through a projection")
+
+    # ---- control ---------------------------------------------------------------------------------------------------------
+    def loop_heads(self, body):
+        if body.name not in self._heads:
+            hs = set()
+            for comp in body.cycles_sccs():
+                cs = set(comp)
+                for b in comp:
+                    if b == 0 or any(p not in cs for p in body.preds(b) if not body.is_cleanup(p)):
+                        hs.add(b)
+            self._heads[body.name] = hs
+        return self._heads[body.name]
+
+    def _snap(self, st, locs, drop=None):
+        """Cells and the listed locals with marks written as cell indices; `drop`: the cell (and the boundary in front of
+        it) left out."""
+        def fn(m):
+            i = st.idx(m)
+            return i - 1 if drop is not None and i > drop else i
+        cells = tuple(c for j, c in enumerate(st.cells) if j != drop)
+        env = {(fid, l): _vmap(st.frames[fid][l], fn) for fid, l in locs if fid in st.frames and l in st.frames[fid]}
+        return cells, env
+
+    def at_head(self, st, fid, bb):
+        key = (fid, bb)
+        info = st.loops.get(key)
+        if info is None:
+            locs = [(fi, l) for fi, fr in st.frames.items() for l in fr]
+            st.loops[key] = ("probe", locs, self._snap(st, locs), None)
+            return st
+        stage, locs, snap, runmark = info
+        if self._snap(st, locs) == snap:
+            return None                                   # nothing consumed: no new inputs reach the head this way
+        for j, (kind, cls) in enumerate(st.cells):
+            if kind != "B" or self._snap(st, locs, drop=j) != snap:
+                continue
+            if stage == "probe":
+                w = st.copy()
+                w.cells[j] = ("S", cls)
+                w.loops[key] = ("wide", locs, self._snap(w, locs), w.marks[j + 1])
+                return w
+            if st.marks[j] != runmark or st.cells[j - 1][0] != "S":
+                continue
+            if cls <= st.cells[j - 1][1]:
+                return None                               # covered by the invariant
+            w = st.copy()
+            w.cells[j - 1] = ("S", st.cells[j - 1][1] | cls)
+            old, new = w.marks[j], w.marks[j + 1]
+            del w.cells[j]
+            del w.marks[j]
+            for fr in w.frames.values():
+                for l in list(fr):
+                    fr[l] = _vmap(fr[l], lambda m: new if m == old else m)
+            w.loops[key] = ("wide", locs, self._snap(w, locs), new)
+            return w
+        raise LangFail("loop at bb%d: one iteration is not 'consume one byte of a class' (no invariant found)" % bb)
+
+    def exec_body(self, body, st, args, depth):
+        if depth > 10:
+            raise LangFail("call depth")
+        fid = self.fresh()
+        st = st.copy()
+        st.frames[fid] = {i + 1: v for i, v in enumerate(args)}
+        heads = self.loop_heads(body)
+        work = [(st, 0, 0)]
+        results = []
+        while work:
+            st, bb, si = work.pop()
+            self.steps += 1
+            if self.steps > self.max_steps:
+                raise LangFail("too many steps")
+            if si == 0 and bb in heads:
+                st = self.at_head(st, fid, bb)
+                if st is None:
+                    continue
+            blk = body.blocks[bb]
+            stmts = blk["stmts"]
+            forked = False
+            while si < len(stmts):
+                s_ = stmts[si]
+                si += 1
+                if s_["s"] != "assign":
+                    if s_["s"] == "setdiscr":
+                        raise LangFail("set discriminant")
+                    continue
+                outs = self.rvalue(st, fid, s_["rv"], body, depth)
+                if len(outs) == 1 and outs[0][0] is st:
+                    self.assign(st, fid, s_["pl"], outs[0][1])
+                    continue
+                for s2, v in outs:
+                    self.assign(s2, fid, s_["pl"], v)
+                    work.append((s2, bb, si))
+                forked = True
+                break
+            if forked:
+                continue
+            t = blk["term"]
+            k = t["t"]
+            if k in ("goto", "drop", "assert"):
+                work.append((st, t["target"], 0))
+            elif k == "return":
+                v = st.frames[fid].get(0)
+                del st.frames[fid]
+                results.append((st, v))
+            elif k == "switch":
+                for s2, d in self.operand(st, fid, t["discr"], body, depth):
+                    d = self.deref(s2, d)
+                    if d[0] == "int":
+                        tg = [tb for val, tb in t["targets"] if val == d[1]]
+                        work.append((s2, tg[0] if tg else t["otherwise"], 0))
+                    elif d[0] == "byte":
+                        listed = set()
+                        for val, tb in t["targets"]:
+                            listed.add(val)
+                            for s3, tr in self.fork_class(s2, d[1], frozenset([val])):
+                                if tr:
+                                    work.append((s3, tb, 0))
+                        for s3, tr in self.fork_class(s2, d[1], frozenset(listed)):
+                            if not tr:
+                                work.append((s3, t["otherwise"], 0))
+                    else:
+                        raise LangFail("branch on " + d[0])
+            elif k == "call":
+                for s2, v in self.call(st, fid, body, t, depth):
+                    if t["target"] is not None:
+                        self.assign(s2, fid, t["dest"], v)
+                        work.append((s2, t["target"], 0))
+            elif k in ("unreachable", "resume"):
+                pass
+            else:
+                raise LangFail("terminator " + k)
+        return results
+
+    # ---- calls -----------------------------------------------------------------------------------------------------------
+    def call(self, st, fid, body, t, depth):
+        fk = t["func"].get("k") if isinstance(t["func"], dict) else None
+        out = []
+        for s, args in self.operands(st, fid, t["args"], body, depth):
+            if not fk or "fn" not in fk:
+                fv = self.operand(s, fid, t["func"], body, depth)
+                if len(fv) != 1:
+                    raise LangFail("indirect call")
+                out.extend(self.apply(fv[0][0], fv[0][1], args, depth))
+            else:
+                out.extend(self.invoke(s, fk.get("res") or fk["fn"], fk.get("name"), args, depth))
+        return out
+
+    def apply(self, st, fv, args, depth):
+        fv = self.deref(st, fv)
+        if fv[0] == "closure":
+            cb = self.f.body(fv[1])
+            if cb is None:
+                raise LangFail("closure body not found")
+            return self.exec_body(cb, st, [fv] + list(args), depth + 1)
+        if fv[0] == "fn":
+            return self.invoke(st, fv[1], fv[2], list(args), depth)
+        raise LangFail("call of " + fv[0])
+
+    def invoke(self, st, res, name, args, depth):
+        cb = self.f.body(res)
+        if cb is not None:
+            return self.exec_body(cb, st, args, depth + 1)
+        if name in ("call", "call_mut", "call_once") and len(args) == 2 and self.deref(st, args[1])[0] == "tuple":
+            return self.apply(st, args[0], list(self.deref(st, args[1])[1]), depth)
+        return self.summary(st, res, name, args, depth)
+
+    def pred_class(self, st, fv, depth):
+        """The set of bytes a per-byte predicate (closure, crate function, std u8 method) answers true for."""
+        fv = self.deref(st, fv)
+        key = repr(fv)
+        if key not in self._pcls:
+            m0, m1 = self.fresh(), self.fresh()
+            s0 = _St([m0, m1], [("B", ALLB)], {k: dict(v) for k, v in st.frames.items()})
+            acc, rej = set(), set()
+            for s, v in self.apply(s0, fv, [("byte", m0)], depth + 1):
+                v = self.deref(s, v)
+                if v[0] != "int" or v[1] not in (0, 1):
+                    raise LangFail("predicate does not answer a boolean")
+                (acc if v[1] else rej).update(s.cells[s.idx(m0)][1])
+            if acc & rej or (acc | rej) != ALLB:
+                raise LangFail("predicate is not a function of the byte alone")
+            self._pcls[key] = frozenset(acc)
+        return self._pcls[key]
+
+    def summary(self, st, res, name, args, depth):
+        a0 = self.deref(st, args[0]) if args else None
+        k0 = a0[0] if a0 else None
+        one = lambda v: [(st, v)]
+        boolv = lambda pairs: [(s, ("int", int(t))) for s, t in pairs]
+        # ---- u8 / char predicates, ranges
+        m = re.match(r"^is_ascii\w*$", name or "")
+        if m and k0 == "byte" and name in absint.ASCII_CLASSES:
+            cls = frozenset(x for lo, hi in absint.ASCII_CLASSES[name] for x in range(lo, hi + 1))
+            return boolv(self.fork_class(st, a0[1], cls))
+        if name in ("eq", "ne", "lt", "le", "gt", "ge") and len(args) == 2:
+            return self.binop(st, name.capitalize(), args[0], args[1])
+        if name == "new" and "RangeInclusive" in res and len(args) == 2:
+            return one(("enum", "std::ops::RangeInclusive", 0, (("start", args[0]), ("end", args[1]))))
+        if name == "contains" and k0 == "enum" and "Range" in a0[1] and len(args) == 2:
+            x = self.deref(st, args[1])
+            flds = dict(a0[3])
+            lo, hi = flds.get("start"), flds.get("end")
+            if x[0] == "byte" and lo and hi and lo[0] == "int" and hi[0] == "int":
+                top = hi[1] if "Inclusive" in a0[1] else hi[1] - 1
+                return boolv(self.fork_class(st, x[1], frozenset(range(lo[1], top + 1))))
+            raise LangFail("range test")
+        if name == "contains" and k0 == "slice" and len(args) == 2:
+            x = self.deref(st, args[1])
+            if x[0] == "int":
+                return boolv((s, mk is not None) for s, mk in self.first(st, a0[1], a0[2], frozenset([x[1]])))
+            if x[0] == "byte":
+                raise LangFail("contains(input byte)")
+        if name == "contains" and k0 == "bytes" and len(args) == 2:
+            x = self.deref(st, args[1])
+            if x[0] == "byte":
+                return boolv(self.fork_class(st, x[1], frozenset(a0[1])))
+        # ---- slices
+        if k0 == "slice":
+            a, b = a0[1], a0[2]
+            if name == "len":
+                return one(_lin([(b, 1), (a, -1)]))
+            if name == "is_empty":
+                return boolv(self.cmp0(st, _lin([(b, 1), (a, -1)]), "Eq"))
+            if name in ("iter", "into_iter"):
+                return one(("iter", a, b, False))
+            if name in ("split_first", "split_last", "first", "last"):
+                right = name in ("split_last", "last")
+                out = []
+                for s, r in self.pop(st, a, b, right=right):
+                    if r is None:
+                        out.append((s, _NONE))
+                    elif name in ("first", "last"):
+                        out.append((s, _some(("byte", r[0]))))
+                    else:
+                        out.append((s, _some(("tuple", (("byte", r[0]), ("slice", a, r[1]) if right else ("slice", r[1], b))))))
+                return out
+            if name in ("split", "rsplit", "splitn", "rsplitn", "split_inclusive"):
+                if name == "split_inclusive":
+                    raise LangFail(name)
+                n = None
+                pa = args[1]
+                if name.endswith("n"):
+                    nv = self.deref(st, args[1])
+                    if nv[0] != "int":
+                        raise LangFail("splitn count")
+                    n, pa = nv[1], args[2]
+                return one(("split", a, b, self.pred_class(st, pa, depth), 0, n, name.startswith("r")))
+            if name in ("split_at", "split_at_checked"):
+                out = []
+                for s, mk in self.resolve(st, a, self.as_num(st, args[1])):
+                    if s.idx(a) <= s.idx(mk) <= s.idx(b):
+                        v = ("tuple", (("slice", a, mk), ("slice", mk, b)))
+                        out.append((s, _some(v) if name.endswith("checked") else v))
+                return out
+            if name in ("index", "get") and len(args) == 2:
+                rg = self.deref(st, args[1])
+                if rg[0] in ("int", "lin"):
+                    out = []
+                    for s, mk in self.resolve(st, a, rg):
+                        if s.idx(a) <= s.idx(mk):
+                            for s2, r in self.pop(s, mk, b):
+                                if r is not None:
+                                    out.append((s2, _some(("byte", r[0])) if name == "get" else ("byte", r[0])))
+                                elif name == "get":
+                                    out.append((s2, _NONE))
+                    return out
+                if rg[0] == "enum" and "Range" in rg[1]:
+                    flds = dict(rg[3])
+                    los = [(st, a)] if "start" not in flds else self.resolve(st, a, self.as_num(st, flds["start"]))
+                    out = []
+                    for s, lo in los:
+                        if "end" not in flds:
+                            his = [(s, b)]
+                        else:
+                            e = self.as_num(s, flds["end"])
+                            his = self.resolve(s, a, _lin_add(e, ("int", 1)) if "Inclusive" in rg[1] else e)
+                        for s2, hi in his:
+                            if s2.idx(a) <= s2.idx(lo) <= s2.idx(hi) <= s2.idx(b):
+                                out.append((s2, _some(("slice", lo, hi)) if name == "get" else ("slice", lo, hi)))
+                    return out
+            if name in ("starts_with", "ends_with", "strip_prefix", "strip_suffix") and len(args) == 2:
+                lit = self.deref(st, args[1])
+                if lit[0] == "int":
+                    lit = ("bytes", bytes([lit[1]]))
+                if lit[0] != "bytes":
+                    raise LangFail(name + " of a non-constant")
+                right = name in ("ends_with", "strip_suffix")
+                out = []
+                for r in self.eq_bytes(st, a0, lit[1], prefix=True, right=right):
+                    if name.startswith("strip"):
+                        out.append((r[0], (_some(("slice", a, r[2]) if right else ("slice", r[2], b))) if r[1] else _NONE))
+                    else:
+                        out.append((r[0], ("int", int(r[1]))))
+                return out
+        # ---- slice iterators
+        if k0 == "iter":
+            a, b, rev = a0[1], a0[2], a0[3]
+            if name == "rev":
+                return one(("iter", a, b, not rev))
+            if name in ("as_slice",):
+                return one(("slice", a, b))
+            if name in ("len", "count"):
+                return one(_lin([(b, 1), (a, -1)]))
+            if name in ("next", "next_back", "last"):
+                right = (name != "next") != rev
+                out = []
+                for s, r in self.pop(st, a, b, right=right):
+                    if r is None:
+                        out.append((s, _NONE))
+                        continue
+                    if name == "last":
+                        self.setref(s, args[0], ("iter", b, b, rev))
+                    else:
+                        self.setref(s, args[0], ("iter", a, r[1], rev) if right else ("iter", r[1], b, rev))
+                    out.append((s, _some(("byte", r[0]))))
+                return out
+            if name in ("all", "any", "position", "find", "rposition", "rfind", "skip_while", "take_while") and len(args) == 2:
+                p = self.pred_class(st, args[1], depth)
+                if name in ("all", "skip_while", "take_while"):
+                    p = ALLB - p
+                right = rev != name.startswith("r")
+                out = []
+                for s, mk in self.first(st, a, b, p, right=right):
+                    if name == "skip_while":
+                        out.append((s, ("iter", a, b, rev) if mk is None and False else
+                                    (("iter", b, b, rev) if mk is None else (("iter", a, self.after(s, mk), rev) if right else ("iter", mk, b, rev)))))
+                        continue
+                    if name == "take_while":
+                        if mk is None:
+                            self.setref(s, args[0], ("iter", b, b, rev) if not right else ("iter", a, a, rev))
+                            out.append((s, ("iter", a, b, rev)))
+                        else:
+                            nx = self.after(s, mk)
+                            self.setref(s, args[0], ("iter", a, mk, rev) if right else ("iter", nx, b, rev))
+                            out.append((s, ("iter", nx, b, rev) if right else ("iter", a, mk, rev)))
+                        continue
+                    if mk is None:
+                        self.setref(s, args[0], ("iter", a, a, rev) if right else ("iter", b, b, rev))
+                        v = ("int", 1) if name == "all" else ("int", 0) if name == "any" else _NONE
+                    else:
+                        nx = self.after(s, mk)
+                        self.setref(s, args[0], ("iter", a, mk, rev) if right else ("iter", nx, b, rev))
+                        if name in ("all", "any"):
+                            v = ("int", int(name == "any"))
+                        elif name in ("find", "rfind"):
+                            v = _some(("byte", mk))
+                        elif rev:
+                            v = _some(_lin([(b, 1), (nx, -1)]))
+                        else:
+                            v = _some(_lin([(mk, 1), (a, -1)]))
+                    out.append((s, v))
+                return out
+        if k0 == "split" and name in ("next", "next_back"):
+            _, a, b, cls, done, n, right = a0
+            if name == "next_back":
+                if n is not None:
+                    raise LangFail("next_back on splitn")
+                right = not right
+            if done:
+                return one(_NONE)
+            if n is not None and n <= 1:
+                if n == 0:
+                    return one(_NONE)
+                self.setref(st, args[0], ("split", a, b, cls, 1, n, a0[6]))
+                return one(_some(("slice", a, b)))
+            out = []
+            for s, mk in self.first(st, a, b, cls, right=right):
+                if mk is None:
+                    self.setref(s, args[0], ("split", a, b, cls, 1, n, a0[6]))
+                    out.append((s, _some(("slice", a, b))))
+                else:
+                    nx = self.after(s, mk)
+                    n2 = None if n is None else n - 1
+                    if right:
+                        self.setref(s, args[0], ("split", a, mk, cls, 0, n2, a0[6]))
+                        out.append((s, _some(("slice", nx, b))))
+                    else:
+                        self.setref(s, args[0], ("split", nx, b, cls, 0, n2, a0[6]))
+                        out.append((s, _some(("slice", a, mk))))
+            return out
+        # ---- Option / Result / ControlFlow
+        if k0 == "enum" and a0[1] in (_OPT, _RES, _CF):
+            adt, vi = a0[1], a0[2]
+            good = (vi == 1) if adt == _OPT else (vi == 0)
+            pay = a0[3][0][1] if a0[3] else None
+            if name in ("is_some", "is_ok"):
+                return one(("int", int(good)))
+            if name in ("is_none", "is_err"):
+                return one(("int", int(not good)))
+            if name in ("unwrap", "expect"):
+                return one(pay) if good else []
+            if name == "unwrap_or":
+                return one(pay if good else args[1])
+            if name == "unwrap_or_else":
+                return one(pay) if good else self.apply(st, args[1], [] if adt == _OPT else [pay], depth)
+            if name == "map":
+                if not good:
+                    return one(a0)
+                return [(s, ("enum", adt, vi, (("0", v),))) for s, v in self.apply(st, args[1], [pay], depth)]
+            if name == "map_err":
+                if good:
+                    return one(a0)
+                return [(s, ("enum", adt, vi, (("0", v),))) for s, v in self.apply(st, args[1], [pay], depth)]
+            if name == "map_or":
+                return self.apply(st, args[2], [pay], depth) if good else one(args[1])
+            if name == "map_or_else":
+                return self.apply(st, args[2], [pay], depth) if good else self.apply(st, args[1], [] if adt == _OPT else [pay], depth)
+            if name == "and_then":
+                return self.apply(st, args[1], [pay], depth) if good else one(a0)
+            if name in ("is_some_and", "is_ok_and"):
+                return self.apply(st, args[1], [pay], depth) if good else one(("int", 0))
+            if name == "is_none_or":
+                return self.apply(st, args[1], [pay], depth) if good else one(("int", 1))
+            if name == "filter" and adt == _OPT:
+                if not good:
+                    return one(a0)
+                return [(s, a0 if self.deref(s, v) == ("int", 1) else _NONE) for s, v in self.apply(st, args[1], [pay], depth)]
+            if name == "ok_or" and adt == _OPT:
+                return one(("enum", _RES, 0, (("0", pay),)) if good else ("enum", _RES, 1, (("0", args[1]),)))
+            if name == "ok_or_else" and adt == _OPT:
+                if good:
+                    return one(("enum", _RES, 0, (("0", pay),)))
+                return [(s, ("enum", _RES, 1, (("0", v),))) for s, v in self.apply(st, args[1], [], depth)]
+            if name == "ok" and adt == _RES:
+                return one(_some(pay) if good else _NONE)
+            if name == "err" and adt == _RES:
+                return one(_NONE if good else _some(pay))
+            if name == "branch":
+                return one(("enum", _CF, 0, (("0", pay),)) if good else ("enum", _CF, 1, (("0", a0),)))
+            if name == "from_residual":
+                return one(a0)
+            if name in ("xor", "or", "and", "zip", "or_else"):
+                raise LangFail("Option::" + name)
+        # ---- values passed through unchanged
+        if name in _TRANSPARENT and args:
+            if name == "as_slice" and k0 == "iter":
+                return one(("slice", a0[1], a0[2]))
+            if name in ("clone", "to_owned", "copied", "cloned") and k0 in ("enum", "byte", "int", "lin", "slice", "tuple"):
+                return one(a0)
+            if name in ("iter", "into_iter") and k0 == "enum" and a0[1] == _OPT:
+                raise LangFail("iteration over an Option")
+            return one(args[0])
+        if name in ("from_utf8", "from_utf8_unchecked") and k0 == "slice":
+            raise LangFail("conversion of the input to str")
+        # ---- anything else: a value we know nothing about — fine as long as nothing is decided from it and it cannot
+        # advance a cursor of ours
+        for a_ in args:
+            if a_[0] == "ref" and self.deref(st, a_)[0] in ("iter", "split"):
+                raise LangFail("cursor handed to %s" % (name or res))
+        if any(self.deref(st, a_)[0] in ("iter", "split") for a_ in args) and name not in ("drop",):
+            raise LangFail("iterator adaptor %s" % (name or res))
+        return one(("opaque", name or res))
+
+
+# ---- regular-language comparison of shape sets --------------------------------------------------------------------------
+
+def _nfa_step(shapes, conf, byte):
+    out = set()
+    for si, pos in conf:
+        sh = shapes[si]
+        if pos < len(sh):
+            kind, cls = sh[pos]
+            if byte in cls:
+                out.add((si, pos if kind == "S" else pos + 1))
+    return _nfa_close(shapes, out)
+
+
+def _nfa_close(shapes, conf):
+    conf = set(conf)
+    todo = list(conf)
+    while todo:
+        si, pos = todo.pop()
+        sh = shapes[si]
+        if pos < len(sh) and sh[pos][0] == "S" and (si, pos + 1) not in conf:
+            conf.add((si, pos + 1))
+            todo.append((si, pos + 1))
+    return frozenset(conf)
+
+
+def _accepting(shapes, conf):
+    return any(pos == len(shapes[si]) for si, pos in conf)
+
+
+def lang_member(shapes, word):
+    conf = _nfa_close(shapes, {(i, 0) for i in range(len(shapes))})
+    for ch in word:
+        conf = _nfa_step(shapes, conf, ch)
+    return _accepting(shapes, conf)
+
+
+def lang_diff(a, b):
+    """None if the shape sets a and b denote the same language, else (word, in_a, in_b) for a shortest distinguishing
+    word."""
+    classes = {cls for sh in list(a) + list(b) for _, cls in sh}
+    sig = {}
+    for v in range(256):
+        sig.setdefault(tuple(v in c for c in classes), v)
+    reps = sorted(sig.values())
+    start = (_nfa_close(a, {(i, 0) for i in range(len(a))}), _nfa_close(b, {(i, 0) for i in range(len(b))}))
+    seen = {start: None}
+    todo = [start]
+    while todo:
+        nxt = []
+        for node in todo:
+            ca, cb = node
+            if _accepting(a, ca) != _accepting(b, cb):
+                w = []
+                cur = node
+                while seen[cur] is not None:
+                    cur, ch = seen[cur]
+                    w.append(ch)
+                return bytes(reversed(w)), _accepting(a, ca), _accepting(b, cb)
+            for ch in reps:
+                n2 = (_nfa_step(a, ca, ch), _nfa_step(b, cb, ch))
+                if n2 not in seen:
+                    seen[n2] = (node, ch)
+                    nxt.append(n2)
+        todo = nxt
+        if len(seen) > 200000:
+            raise LangFail("language comparison too large")
+    return None
+
+
+def fmt_shape(sh):
+    out = []
+    for kind, cls in sh:
+        if kind == "S" and not cls:
+            continue
+        c = "any" if cls == ALLB else "[%s]" % absint.fmt_class(cls)
+        out.append(c + ("*" if kind == "S" else ""))
+    return " ".join(out) or "ε"
+
+
+FILE_NAME_SPEC = [(("S", frozenset(STEM)), ("B", frozenset([0x2e])), ("B", frozenset(ALPHA)), ("B", frozenset(ALPHA)),
+                   ("B", frozenset(ALPHA)))]
